@@ -218,6 +218,17 @@ Proof.
 Qed.
 Print Assumptions C02_unique_nonvacuous.
 
+(* DISJ is needed, and /repo does not enforce it: two pools of one VRF (two profiles) that share an address hand it out
+   independently - in the Repaired model too.  Finding "pools-overlap-within-vrf-accepted". *)
+Definition w8_ps := [new_pool F4 1 0 0 (GRange a1 a1 []); new_pool F4 2 1 0 (GRange a1 a2 [])].
+Definition w8_ss := [new_sess 1 true (Some 0) None 1; new_sess 2 true (Some 1) None 2].
+Definition w8_ops := [PA 1 0 None None None None None None; PA 2 0 None None None None None None].
+Theorem C02_unique_needs_disjoint_pools :
+  let st := run_first Repaired (init_state w8_ps w8_ss) w8_ops in
+  holds_of st 1 F4 = Some (a1, 0) /\ holds_of st 2 F4 = Some (a1, 0).
+Proof. vm_compute. split; reflexivity. Qed.
+Print Assumptions C02_unique_needs_disjoint_pools.
+
 (* ------------------------------------------------------------------ IPoE: told = recorded *)
 (* In every reachable state an IPoE session that records an IPv4 address (sess.IPv4, written by handleAck)
    records exactly the address of its last OFFER/ACK, which is also the address of its allocation context. *)
